@@ -24,7 +24,7 @@ import numpy as np
 from hypothesis import strategies as st
 
 from vf import canon, env
-from vf.core import Discard, Violation, case_hash, drive, exc_kind, pymoca_frame
+from vf.core import Discard, Violation, case_hash, exc_kind, pymoca_frame
 from vf.gen import dae as D
 
 ID = "C19"
@@ -42,10 +42,10 @@ RULE = (
     "attributes; algebraics are defined by expressions, alias equations (a = b, a = -b, array = array, "
     "Integer = Integer input, Boolean = Boolean input), time functions or delay() with "
     "parameter/constant/literal durations (0-2 delays); 0-2 String parameters/constants.  options: "
-    "cache=True, or codegen=True (quick: one case on each of shards 0..5; thorough: 300), plus each of "
+    "cache=True (quick 240 cases, thorough 6000), or codegen=True (quick: one case on each of shards 0..5; thorough: 300), plus each of "
     "expand_vectors, detect_aliases, replace_parameter_expressions, replace_constant_expressions, "
-    "replace_constant_values, eliminate_constant_assignments (p ~ 1/3 .. 1/2) and "
-    "resolve_parameter_values, replace_parameter_values (p = 1/6; they remove the parameters).  "
+    "replace_constant_values, eliminate_constant_assignments (p ~ 0.3 .. 0.45) and "
+    "resolve_parameter_values, replace_parameter_values (p ~ 0.13 each; they remove the parameters).  "
     "non-trivial = the cache-free reference compile has >= 1 parameter-dependent attribute or >= 1 "
     "delay state AND the second transfer_model call returned a CachedModel; distinct = distinct case JSON."
 )
@@ -83,7 +83,7 @@ ASSUMPTIONS = [
     "numeric comparisons: rtol = atol = 1e-8 for functions, rtol 1e-9 for attribute values, NaN equals NaN",
 ]
 SHARDS = {"quick": 16, "thorough": 16}
-SOFT_BUDGET_S = {"quick": 100, "thorough": 1500}
+SOFT_BUDGET_S = {"quick": 300, "thorough": 2400}
 
 CATS5 = ("states", "alg_states", "inputs", "parameters", "constants")
 ALLCATS = ("states", "der_states", "alg_states", "inputs", "constants", "parameters")
@@ -149,7 +149,7 @@ INT_LITS = [I(1), I(2), I(3), I(5), I(-2), I(0)]
 def option_set(draw, mode):
     o = {}
     for k, w in SIMPLIFY_OPTS:
-        if draw(st.integers(0, 5)) < w:
+        if 1 <= draw(st.integers(0, 5)) <= w:  # (0 is over-represented in Hypothesis' small-range draws)
             o[k] = True
     if mode == "codegen" and draw(st.booleans()):
         o["expand_mx"] = True  # cache mode forces it; codegen may compile MX or SX functions
@@ -164,7 +164,10 @@ def flat_model(draw, opts):
     has_n = draw(st.integers(0, 3)) > 0
     has_pb = draw(st.integers(0, 3)) == 0
     has_c = draw(st.integers(0, 4)) > 0
-    has_c1 = has_c and draw(st.integers(0, 2)) == 0
+    # a constant whose value is an expression of a constant needs one of the two options (else
+    # the fresh compile cannot build its metadata function: not this property)
+    has_c1 = has_c and bool(opts.get("replace_constant_expressions") or opts.get("replace_constant_values")) \
+        and draw(st.booleans())
     has_cv = draw(st.integers(0, 3)) == 0
     has_ci = draw(st.integers(0, 3)) == 0
     has_x1 = draw(st.booleans())
@@ -320,8 +323,10 @@ def flat_model(draw, opts):
     scalars = [V("x0")] + ([V("x1")] if has_x1 else []) + ([V("u")] if has_u else [])
     coefs = [p, R("2.0"), R("0.5")] + ([q] if has_q else []) + ([V("c")] if has_c else []) \
         + ([V("c1")] if has_c1 else []) + ([["idx", "pa", 1]] if has_pa else []) + ([["idx", "cv", n]] if has_cv else [])
-    durations = [p, p, mul(I(2), p), R("0.5"), R("1.0")] + ([q, add(p, q)] if has_q else []) \
-        + ([V("c"), V("c")] if has_c else []) + ([["idx", "pa", 2]] if has_pa else [])
+    durations = [R("0.5"), R("1.0")] + ([V("c"), V("c")] if has_c else [])
+    if not opts.get("replace_parameter_values"):
+        # (with that option a fresh compile cannot build delay_arguments_function for a parameter duration)
+        durations += [p, p, mul(I(2), p)] + ([q, add(p, q)] if has_q else []) + ([["idx", "pa", 2]] if has_pa else [])
     n_delay = 0
     alg_decl = []  # (var dict) in generation order; shuffled into vars_ below
 
@@ -736,17 +741,42 @@ def check_case(ctx, case):
 # --------------------------------------------------------------------------
 # search
 # --------------------------------------------------------------------------
+def drive_after(ctx, strategy, n, skip):
+    """vf.core.drive, but the first `skip` draws are not evaluated: Hypothesis always starts with the
+    same minimal example (here: the smallest model with no option set), which would otherwise be the
+    only codegen case of every shard and 1/15 of all cache cases."""
+    import hypothesis
+    from hypothesis import given
+
+    from vf.core import hsettings, run_one
+
+    if n <= 0:
+        return
+    count = [0]
+
+    @hypothesis.seed(ctx.hseed)
+    @hsettings(n + skip)
+    @given(strategy)
+    def run(case):
+        count[0] += 1
+        if count[0] <= skip or ctx.over_budget():
+            return
+        run_one(ctx, check_case, case)
+
+    run()
+
+
 def shard(ctx):
     import pymoca.backends.casadi.api  # noqa: F401 - pin_version must reach api.__version__
 
     env.pin_version()
-    drive(ctx, case_strategy("cache"), check_case, ctx.share(120, 6000))
+    # codegen first (gcc: seconds per case), so that a slow machine cannot push it past the soft budget
     if ctx.tier == "quick":
         n_codegen = 1 if ctx.shard < 6 else 0
     else:
         n_codegen = ctx.share(0, 300)
-    if n_codegen:
-        drive(ctx, case_strategy("codegen"), check_case, n_codegen)
+    drive_after(ctx, case_strategy("codegen"), n_codegen, skip=2)
+    drive_after(ctx, case_strategy("cache"), ctx.share(240, 6000), skip=0 if ctx.shard == 0 else 1)
 
 
 def replay(ctx, case):
